@@ -278,6 +278,8 @@ impl Cqueue {
                 }
             }
 
+            #[cfg(may_verif)]
+            may_queue::verif::point(may_queue::verif::site::CQ_POLL_COUNTED, self as *const _ as usize);
             let cur = Blocker::current();
             // register the waiter
             self.to_wake.store(cur.clone());
